@@ -131,7 +131,7 @@ Proof.
   assert (Hzg: zero_guard s1 cp P_RW = false).
   { unfold zero_guard. rewrite Hg. reflexivity. }
   destruct (map_ok s1 A A own temp_page cp P_RW HI1 temp_idx0 Hzg) as
-      (s2' & err' & own2 & Hr & HI2 & Henv2 & _ & Hok & _ & Hfr2 & _ & (n2 & Hn2 & Hown2) & Qoff & Qpres).
+      (s2' & err' & own2 & Hr & HI2 & Henv2 & _ & Hok & _ & Hfr2 & _ & (n2 & Hn2 & Hown2) & Qoff & Qpres & _).
   rewrite Hmp in Hr. injection Hr as E2 Ee'. subst s2' err'.
   destruct (Hok eq_refl) as (Hat2 & Htr2 & Hfl2).
   pose proof (inv_wf _ _ _ _ HI2) as W2.
